@@ -23,7 +23,7 @@ from tweedledum.passes import gate_cancellation, linear_resynth, parity_decomp
 from tweedledum.synthesis import xag_synth
 
 from .. import QCircuit
-from ..ast2logic.typing import Arg, Args, BoolExpList
+from ..ast2logic.typing import Arg, Args, BoolExpList, is_return_symbol
 from ..qcircuit import gates
 from . import Compiler
 
@@ -77,7 +77,7 @@ def sympy_to_logic_network(  # noqa: C901
         v_signal = visit(e)
         _symbol_table[s.name] = v_signal
 
-        if s.name[0:4] == "_ret":
+        if is_return_symbol(s.name):
             _logic_network.create_po(v_signal)
 
     return _logic_network
